@@ -20,7 +20,7 @@ for f in os.listdir(d):
         shutil.copy(os.path.join(d, f), os.path.join(dst, f + (".txt" if f.endswith(".go") else "")))
 out = {
     "property": prop,
-    "round": {"A": 1, "B": 1, "C": 2, "D": 2, "E": 3, "F": 3, "G": 4, "H": 4}.get(letter, 4),
+    "round": {"A": 1, "B": 1, "C": 2, "D": 2, "E": 3, "F": 3, "G": 4, "H": 4, "I": 5, "J": 5}.get(letter, 4),
     "summary": meta.get("summary"),
     "needs_to_manifest": meta.get("needs_to_manifest"),
     "files_changed": meta.get("files_changed"),
